@@ -105,6 +105,10 @@ func init() {
 					}
 					w.Each(len(items), func(i int) { w.Item(items[i], "") })
 				}, Eval: evalC15},
+			{Name: "new-literals", Space: deltaSpace + " (symbols with '<' or '=' dropped)", Share: 2,
+				Run: func(w *fw.W) {
+					deltaRun(w, without(uniq(alpha.DeltaHTML(), newByteAtoms()), "<="), uniq([]string{""}, c15Frag), without(alpha.H1core, "<="), uniq(h1, c15Frag))
+				}, Eval: evalC15},
 			{Name: "corpus-cuts-stripped", Space: "all fixture cuts with '<' and '=' deleted", Share: 1,
 				Run: func(w *fw.W) { w.Each(len(cuts), func(i int) { w.Item(cuts[i], "") }) }, Eval: evalC15},
 		},
